@@ -458,6 +458,7 @@ func CfgC16() PropCfg {
 	w.PlaceBid, w.ModifyBid, w.UpdateAllowed, w.Block = 36, 10, 6, 24
 	w.PerturbPct = 4
 	w.SnipePct = 35
+	w.FaultBlock = 3 // a settlement whose transfer fails must not be published as settled
 	return PropCfg{ID: "C16", Weights: w, MinOps: 14, MaxOps: 60, DrivePct: 95,
 		New: func() Monitor { return &monC16{} },
 		NonTrivial: func(h *History) bool { return hasLabel(h, "c16:provisional-winner-not-in-final-settlement") },
